@@ -360,6 +360,13 @@ static void do_topo(char *line)
         nbad += contract_obj(call_tsn, &c, "type");
         nbad += contract_obj(call_asn, &c, "attr");
       }
+      /* object type <-> cache.depth / cache.type attributes (what the printed letter is made of) */
+      if (hwloc__obj_type_is_cache(o->type)
+          && (hwloc_cache_type_by_depth_type(o->attr->cache.depth, o->attr->cache.type) != o->type
+              || (hwloc__obj_type_is_icache(o->type) != (o->attr->cache.type == HWLOC_OBJ_CACHE_INSTRUCTION)))) {
+        printf("robj cacheattr gp=%llu type=%u flags=0 BAD cache.depth=%u cache.type=%d do not belong to this object type\n",
+               (unsigned long long) o->gp_index, (unsigned) o->type, o->attr->cache.depth, (int) o->attr->cache.type); nbad++;
+      }
       /* round trip on the real object, flags without SHORT_NAMES */
       for (fi = 0; fi < 2; fi++) {
         char b[128]; volatile int st; hwloc_obj_type_t ty; union hwloc_obj_attr_u a; int r, ok;
